@@ -8,7 +8,8 @@
                same bound signal before, during and after a complete subscribe / unsubscribe history; "reuse": a new instance
                allocated at the address of a dead one gets its own bound signal; "private": name-mangled signals `__x` declared by
                a base class and by its subclass are two independent channels with their own event classes; "falsy": an owner instance
-               whose truth value is False (empty container, __bool__) is an instance like any other                                                       *)
+               whose truth value is False (empty container, __bool__) is an instance like any other; "equal": two different instances that
+               compare equal (value __eq__/__hash__, frozen dataclass) are two owners: own bound signals, no delivery across                                                       *)
 EXTENDS Naturals, Sequences, TLC, TLCExt, Json, IOUtils
 Cases == JsonDeserialize(IOEnv.TRACE_FILE)
 VARIABLES i
@@ -38,6 +39,7 @@ Why(c) ==
                                                              ELSE IF c.id = "context" THEN "bound-signal-of-a-context-changes-over-its-life-cycle"
                                                              ELSE IF c.id = "copy-delivery" THEN "events-cross-between-an-instance-and-its-copy"
                                                              ELSE IF c.id = "falsy" THEN "falsy-owner-instance-not-treated-as-an-instance"
+                                                             ELSE IF c.id = "equal" THEN "different-instances-that-compare-equal-share-a-bound-signal"
                                                              ELSE "binding-keeps-the-owner-alive") ELSE ""
 Report == LET c == Cases[i] w == Why(c) IN
           PrintT(ToJson([end |-> c.id, ok |-> (w = ""), step |-> 1, why |-> w, hits |-> <<>>]))
